@@ -59,7 +59,7 @@ def run(tier, replay=None):
     full_depth = depth - 1                       # exhaustive up to here, seeded sample of the deepest level
     keep = [c for c in cases if len(c["path"]) <= full_depth]
     rest = [c for c in cases if len(c["path"]) > full_depth]
-    budget = 16000 if tier == "quick" else 150000
+    budget = 16000 if tier == "quick" else 60000
     cases = keep + (rest if len(rest) <= budget else rnd.sample(rest, budget))
     cases.sort(key=lambda c: c["id"])
     C.log(f"[{PID}] {len(cases)} programs (of {total} enumerated, depth <= {depth})")
